@@ -12,6 +12,7 @@ import (
 	"os"
 	"reflect"
 	"strings"
+	"time"
 
 	"github.com/kaptinlin/gozod"
 	"github.com/kaptinlin/gozod/core"
@@ -127,6 +128,39 @@ func entries() []entry {
 		{name: "lazy", mk: func() any { return gozod.Lazy(func() *gozod.ZodString[string] { return gozod.String().Min(3) }) },
 			valid: strs("dvOK", "dfOK", "pvOK", "pfOK"), invalid: strs("d", "f", "p", "q"), rule: "nilable", okIn: "hello", badIn: "x"},
 	}
+	type rec struct {
+		Name string `gozod:"min=3"`
+	}
+	day := func(d int) time.Time { return time.Date(2024, 1, d, 0, 0, 0, 0, time.UTC) }
+	es = append(es,
+		entry{name: "tuple", mk: func() any { return gozod.Tuple(gozod.String().Min(3), gozod.Int()) },
+			valid:   [4]any{[]any{"dvOK", 1}, []any{"dfOK", 1}, []any{"pvOK", 1}, []any{"pfOK", 1}},
+			invalid: [4]any{[]any{"d", 1}, []any{"f", 1}, []any{"p", 1}, []any{"q", 1}}, rule: "nilable", okIn: []any{"hello", 2}, badIn: []any{"x", 2}},
+		entry{name: "set", mk: func() any { return gozod.Set[int](gozod.Int().Min(10)) },
+			valid:   [4]any{map[int]struct{}{11: {}}, map[int]struct{}{12: {}}, map[int]struct{}{13: {}}, map[int]struct{}{14: {}}},
+			invalid: [4]any{map[int]struct{}{1: {}}, map[int]struct{}{2: {}}, map[int]struct{}{3: {}}, map[int]struct{}{4: {}}}, rule: "nilable",
+			okIn: map[int]struct{}{50: {}}, badIn: map[int]struct{}{5: {}}},
+		entry{name: "map", mk: func() any { return gozod.Map(gozod.String(), gozod.Int().Min(10)) },
+			valid:   [4]any{map[any]any{"k": 11}, map[any]any{"k": 12}, map[any]any{"k": 13}, map[any]any{"k": 14}},
+			invalid: [4]any{map[any]any{"k": 1}, map[any]any{"k": 2}, map[any]any{"k": 3}, map[any]any{"k": 4}}, rule: "nilable",
+			okIn: map[any]any{"k": 50}, badIn: map[any]any{"k": 5}},
+		entry{name: "xor", mk: func() any { return gozod.Xor([]any{gozod.String().Min(3), gozod.Int().Min(10)}) },
+			valid: [4]any{"dvOK", "dfOK", "pvOK", "pfOK"}, invalid: [4]any{"d", "f", "p", "q"}, rule: "nilable", okIn: "hello", badIn: "x"},
+		entry{name: "struct", mk: func() any { return gozod.FromStruct[rec]() },
+			valid:   [4]any{rec{"dvOK"}, rec{"dfOK"}, rec{"pvOK"}, rec{"pfOK"}},
+			invalid: [4]any{rec{"d"}, rec{"f"}, rec{"p"}, rec{"q"}}, rule: "nilable", okIn: rec{"hello"}, badIn: rec{"x"}},
+		entry{name: "time", mk: func() any { return gozod.Time() },
+			valid: [4]any{day(1), day(2), day(3), day(4)}, invalid: [4]any{day(1), day(2), day(3), day(4)}, rule: "nilable", okIn: day(9), badIn: "notatime",
+			only: append([]string{"Default:v", "DefaultFunc:v", "Prefault:v", "PrefaultFunc:v"}, flagOps...)},
+		entry{name: "stringbool", mk: func() any { return gozod.StringBool() },
+			valid: [4]any{true, true, false, false}, invalid: [4]any{true, true, false, false}, rule: "nilable", okIn: "true", badIn: "maybe",
+			only: append([]string{"Default:v"}, flagOps...)},
+		entry{name: "email", mk: func() any { return gozod.Email() },
+			valid: strs("dv@x.io", "df@x.io", "pv@x.io", "pf@x.io"), invalid: strs("d", "f", "p", "q"), rule: "ptrTy", okIn: "a@b.co", badIn: "x"},
+		entry{name: "never", mk: func() any { return gozod.Never() },
+			valid: [4]any{"dv", "df", "pv", "pf"}, invalid: [4]any{"dv", "df", "pv", "pf"}, rule: "nilable", okIn: nil, badIn: "x",
+			only: append([]string{"Default:v", "DefaultFunc:v"}, flagOps...)},
+	)
 	return es
 }
 
@@ -232,6 +266,11 @@ func classify(e *entry, res any, err error) string {
 			}
 			return "err:type"
 		case core.Custom:
+			// struct reports a wrong-typed input (e.g. a nil *T given to Struct[T]) as a custom-coded
+			// issue with the invalid_type wording; by the statement it is a type error
+			if strings.HasPrefix(is.Message, "Invalid input: expected") {
+				return "err:type"
+			}
 			return "err:custom"
 		default:
 			return "err:checks"
